@@ -6,7 +6,6 @@ NA = {
  "C25": "integral-transform identity over Bessel/exponential kernels (scipy.special.kn, quadrature): no integer or algebraic core an SMT solver can decide; see DESIGN.md section 6",
  "C26": "content is LAPACK eigh and a Pade expm behind FFI plus unitarity of their output; an axiomatised eigh would assume the conclusion (DESIGN.md section 6)",
  "C30": "persistence goes through zarr/numcodecs and the file system (C code and I/O); the pure-Python axis (de)serialisation it relies on is decided under C35",
- "C32": "non-mutation is a heap-aliasing fact about numpy buffers inside ASE; ASE coerces positions to float64 buffers so no symbolic value reaches the code",
  "C38": "equality across FFT back ends and precisions is a statement about compiled libraries (FFTW/pocketfft); no encodable code",
 }
 def meta(path):
